@@ -35,6 +35,7 @@ type Interp struct {
 	mainPkg     *ssa.Package
 	replaceAlways map[string]bool
 	syncMaps    map[*Value]*Map
+	randSeq     int
 }
 
 type deferred struct {
@@ -1223,7 +1224,8 @@ func (in *Interp) rangeIter(x Value, t types.Type) iter {
 			}
 		}
 		// iteration order is unspecified: a nondeterministic permutation when enabled
-		if in.spec != nil && in.spec.MapOrder && len(live) > 1 {
+		if in.spec != nil && in.spec.MapOrder && len(live) > 1 && (in.spec.MapOrderBudget == 0 || in.ex.path.mapOrders < in.spec.MapOrderBudget) {
+			in.ex.path.mapOrders++
 			perm := make([]int, 0, len(live))
 			rest := append([]int(nil), live...)
 			for len(rest) > 1 {
